@@ -176,6 +176,10 @@ Record quirks := {
 }.
 Definition ideal : quirks := Build_quirks false false false false false false.
 
+(* does the built-in exclusion (as found in the source) look at the path as given?  When the source is fixed the generated
+   constant changes and the faithful model follows it *)
+Definition scope_given (s : pscope) : bool := match s with ScProjectRelParts => false | _ => true end.
+
 (* ---------- the predicates ---------- *)
 Definition excl_comp (c : string) : bool := smem c excluded_dirs || suffixb excluded_suffix_of_part c.
 
@@ -268,7 +272,7 @@ Definition file_result (q : quirks) (e : env) (sg : cmdsig) (configured : option
   let rel := true_rel e g in
   let name := name_of (g_parts g) in
   let pats := ignore_pats sg configured in
-  if hard_excluded (if q_excl_all_parts q then all_parts g else rel) name then []
+  if hard_excluded (if q_excl_all_parts q && scope_given hard_exclusion_scope then all_parts g else rel) name then []
   else if orch_ignored q e g rel then []
   else
     match cs_ikind sg with
